@@ -604,6 +604,15 @@ func evalModel(cs *modelCase) *verdict {
 	want := ref.StripImports(res.Expected)
 	got := ref.StripImports(actual)
 	d := ref.FirstDifference(want, got, ref.Output)
+	mode := ref.Output
+	if d == nil {
+		// Equal up to parentheses: those count too, in one direction (the
+		// result may have more of them than expected, not fewer).
+		if d = ref.FirstDifference(want, got, ref.OutputParens); d != nil {
+			mode = ref.OutputParens
+			v.Sub = "parentheses-dropped"
+		}
+	}
 	hasDots := v.MinusDots > 0
 	if d == nil {
 		if len(cs.Spec.ImportsMinus) == 0 {
@@ -650,7 +659,7 @@ func evalModel(cs *modelCase) *verdict {
 		v.Status = "unjudged:expected-output-unprintable"
 		v.Msg = err.Error()
 		return v
-	} else if ref.Equal(ref.StripImports(rt), got, ref.Output) {
+	} else if ref.Equal(ref.StripImports(rt), got, mode) {
 		v.Status = "ok"
 		v.Note = "print-parse-artefact"
 		return v
